@@ -16,7 +16,8 @@ from . import cats_common, cats_json
 
 RULE = (
 	'random schemas from VERIF_SEED as CATS text, parsed and expanded by the real code: 1-3 abstract factories (aligned or not, 1-2 '
-	'discriminators, optional abstract intermediate level), 2-5 descendants per factory declared interleaved, descendants holding '
+	'discriminators in either order, initializers shuffled, repeated, for non-discriminator members, rarely missing; optional abstract '
+	'intermediate level that may override), 2-5 descendants per factory declared interleaved, any of them overriding inherited initializers, descendants holding '
 	'struct-typed members (plain, aligned, other descendants), count/size arrays, sizeof pairs; holder structs (aligned or not) with '
 	'arrays of factories, aligned/unaligned structs, descendants, bytes; plus symbol and nem all_generated.cats. A case is one '
 	'(schema, observable) comparison; non-trivial = the schema has at least one factory or array.')
@@ -63,18 +64,31 @@ def gen_schema(rng, options=None):
 		aligned = rng.random() < 0.5
 		if aligned:
 			header.append('@is_aligned')
-		header.append('@discriminator(kind, ver)' if two else '@discriminator(kind)')
-		header.append('@initializes(kind, KIND)')
-		if two or rng.random() < 0.3:
-			header.append('@initializes(ver, VER)')
-		rng.shuffle(header)
+		header.append(rng.choice(['@discriminator(kind, ver)', '@discriminator(ver, kind)']) if two else '@discriminator(kind)')
+		# initializers in any order relative to the discriminator names, with an initializer of a non-discriminator member in between,
+		# now and then repeated for one target, and (rarely) a discriminator left without an initializer (build_factory_map raises)
+		initializers = ['@initializes(kind, KIND)']
+		missing = two and rng.random() < 0.05
+		if (two and not missing) or (not two and rng.random() < 0.3):
+			initializers.append('@initializes(ver, VER)')
+		extra = rng.random() < 0.5
+		if extra:
+			initializers.append('@initializes(extra, EXTRA)')
+		if rng.random() < 0.15:
+			initializers.append(rng.choice(['@initializes(kind, SPECIAL)', '@initializes(ver, VER)']))
+		rng.shuffle(initializers)
+		header += initializers
+		if rng.random() < 0.5:
+			rng.shuffle(header)
 		body = ['\tbytes = uint32'] if rng.random() < 0.5 else []
-		body += ['\tkind = Kind', '\tver = uint8']
+		body += ['\tkind = Kind', '\tver = uint8'] + (['\textra = uint16'] if extra else [])
 		blocks.append(('factory', name, '\n'.join(header + [f'abstract struct {name}'] + body)))
 		entry = {'name': name, 'two': two, 'aligned': aligned, 'parents': [name]}
 		if rng.random() < 0.4:
 			middle = f'Mid{chr(65 + index)}x'
 			header = ['@is_aligned'] if rng.random() < 0.5 else []
+			if rng.random() < 0.3:
+				header.append('@initializes(kind, SPECIAL)')  # an override between the factory and its later descendants
 			blocks.append(('factory', middle, '\n'.join(header + [f'abstract struct {middle}', f'\tinline {name}', f'\t{fresh("mid")} = uint16'])))
 			entry['parents'].append(middle)
 		factories.append(entry)
@@ -84,7 +98,9 @@ def gen_schema(rng, options=None):
 		for index in range(rng.randrange(2, 6)):
 			name = f'Desc{entry["name"][3]}{chr(97 + index)}'
 			parent = rng.choice(entry['parents'])
-			body = [f'\tKIND = make_const(Kind, {rng.choice(KINDS)})', f'\tVER = make_const(uint8, {index + 1})']
+			body = [
+				f'\tKIND = make_const(Kind, {rng.choice(KINDS)})', f'\tVER = make_const(uint8, {index + 1})',
+				f'\tEXTRA = make_const(uint16, {index})', f'\tSPECIAL = make_const(Kind, {rng.choice(KINDS)})', f'\tOWN = make_const(uint8, {index + 9})']
 			members = []
 			for _ in range(rng.randrange(0, 4)):
 				pick = rng.random()
@@ -107,6 +123,14 @@ def gen_schema(rng, options=None):
 			position = rng.choice([0, len(members)])
 			members[position:position] = [f'\tinline {parent}']
 			header = ['@is_aligned'] if rng.random() < 0.4 else []
+			# a descendant at any position among its siblings (the first one seeds the factory descriptor) overrides inherited
+			# initializers: its own come first in the inherited attribute order, possibly twice for one target
+			if rng.random() < 0.3:
+				own = [rng.choice(['@initializes(kind, SPECIAL)', '@initializes(ver, OWN)'])]
+				if rng.random() < 0.4:
+					own.append(rng.choice(['@initializes(kind, KIND)', '@initializes(ver, OWN)', '@initializes(kind, SPECIAL)', '@initializes(extra, EXTRA)']))
+				header += own
+				rng.shuffle(header)
 			blocks.append(('descendant', name, '\n'.join(header + [f'struct {name}'] + body + members)))
 			descendants.append(name)
 
@@ -381,11 +405,23 @@ class Checker:
 		if isinstance(observed, dict):
 			if all(row[1] is not None and None not in (row[2] or [None]) and None not in (row[3] or [None]) for row in expected):
 				self.fail_property(f'build_factory_map raises {observed["error"]} although every factory has its discriminators, initializers and members', case)
+		elif any(row[1] is None or None in (row[2] or []) or None in (row[3] or []) for row in expected):
+			self.fail_property(
+				f'build_factory_map returns {observed} although a discriminator has no initializer or no member (relations: {expected})'[:900], case)
 		elif observed != expected:
 			self.fail_property(f'build_factory_map: the relations give {expected}, the implementation {observed}'[:900], case)
 		else:
 			ctx.count('factory-map:meets-property')
 			ctx.count('factory-map:factories', len(observed))
+			for row in observed:
+				first = next(model for model in models if str(model.name) == row[4][0])
+				targets = [str(init.target_property_name) for init in first.initializers]
+				if len(targets) != len(set(targets)):
+					ctx.count('factory-map:first-descendant-overrides-an-initializer')
+				if any(target not in row[1] for target in targets):
+					ctx.count('factory-map:initializer-of-a-non-discriminator')
+				if [target for target in targets if target in row[1]][:len(row[1])] != row[1]:
+					ctx.count('factory-map:initializers-not-in-discriminator-order')
 		if ctx.driver is not None:
 			answer = cats_common.ask_json(ctx.driver, 'factory ' + wire)
 			if isinstance(observed, dict) != isinstance(answer, dict) or (not isinstance(observed, dict) and answer != observed):
@@ -531,15 +567,24 @@ def _check_history(self, load, models, observed, extensions, marks, case):
 			[str(item) for item in value.discriminator_types], [str(child.name) for child in value.children]] for key, value in factory_map.items()]
 	except Exception as ex:  # pylint: disable=broad-except
 		reversed_observed = {'error': type(ex).__name__}
-	if isinstance(observed, dict) != isinstance(reversed_observed, dict):
-		self.fail_property(f'build_factory_map on the reversed list: {reversed_observed}, on the list: {observed}'[:600], case)
-	elif not isinstance(observed, dict):
-		forward = {row[0]: (row[1], row[3], row[4]) for row in observed}
-		backward = {row[0]: (row[1], row[3], list(reversed(row[4]))) for row in reversed_observed}
-		if forward != backward:
-			self.fail_property(f'build_factory_map depends on more than the declaration order: {forward} vs reversed {backward}'[:700], case)
-		else:
-			ctx.count('history:factory-map-reversed')
+	# the reversed list has other first descendants: values (and whether a missing initializer matters) follow from the relations of
+	# the reversed list; keys, names, types and the children as a set follow from the relations alone
+	expected_reversed = expected_factory_map(reversed_models)
+	incomplete = any(row[1] is None or None in (row[2] or []) or None in (row[3] or []) for row in expected_reversed)
+	if isinstance(reversed_observed, dict):
+		if not incomplete:
+			self.fail_property(f'build_factory_map raises {reversed_observed["error"]} on the reversed list although nothing is missing', case)
+	elif incomplete:
+		self.fail_property(f'build_factory_map returns {reversed_observed} on the reversed list although a discriminator has no initializer'[:700], case)
+	elif reversed_observed != expected_reversed:
+		self.fail_property(f'build_factory_map on the reversed list: the relations give {expected_reversed}, the implementation {reversed_observed}'[:900], case)
+	else:
+		ctx.count('history:factory-map-reversed')
+		if not isinstance(observed, dict):
+			forward = {row[0]: (row[1], row[3], row[4]) for row in observed}
+			backward = {row[0]: (row[1], row[3], list(reversed(row[4]))) for row in reversed_observed}
+			if forward != backward:
+				self.fail_property(f'build_factory_map: names, types or children depend on more than the declaration order: {forward} vs reversed {backward}'[:700], case)
 	order = set_order(reversed_models)
 	raised = run_extend(reversed_models)
 	if raised is not None:
